@@ -12,7 +12,101 @@ package kubeeventsmanager
 //@ func applyFilter
 //@   prop C09, C08
 //@   modifies nothing
+//@   ensures [fresh]       result1 == nil ==> fresh(result0)
 //@   ensures [fields]      result1 == nil ==> result0 != nil && result0.Metadata.JqFilter == jqFilter && result0.Object == obj && result0.Metadata.ResourceId == resourceId(obj) && !result0.Metadata.RemoveObject
 //@   ensures [stored-type] result1 == nil && filterFn == nil && jqFilter != "" ==> dyntype(result0.FilterResult, map[string]interface{})
 //@   ensures [no-filter]   result1 == nil && filterFn == nil && jqFilter == "" ==> result0.FilterResult == nil
 //@   ensures [filter-fn]   result1 == nil && filterFn != nil ==> result0.FilterResult == filterFn(obj)
+
+// ---- C08: a watch event fires the hook only for listed event types and changed projections ----
+
+//@ pure jq.NewFilter
+// an event type is listed in the binding's executeHookOnEvent
+//@ specfn listed(s []kemtypes.WatchEventType, e kemtypes.WatchEventType) bool
+//@   axiom result ==> exists(j, 0, len(s), s[j] == e)
+//@   axiom forall(j, 0, len(s), s[j] == e ==> result)
+
+//@ func (*resourceInformer).shouldFireEvent
+//@   prop C08
+//@   requires ei.Monitor != nil
+//@   modifies nothing
+//@   ensures [listed] result == listed(ei.Monitor.EventTypes, checkEvent)
+//@   loop 1
+//@     invariant 0 <= iter() && iter() <= len(ei.Monitor.EventTypes)
+//@     invariant forall(j, 0, iter(), ei.Monitor.EventTypes[j] != checkEvent)
+
+// Ghost log of events handed to the hook machinery directly (callback enabled).
+//@ ghost nPut int
+//@ ghost lastPut kemtypes.KubeEvent
+//@ trusted func (*resourceInformer).putEvent
+//@   modifies nPut, lastPut
+//@   ghostset nPut := nPut + 1
+//@   ghostset lastPut := ev
+//@ package github.com/flant/shell-operator/pkg/kube_events_manager
+
+// the object a watch notification is about (informers wrap the last known state of a deleted
+// object whose deletion was missed)
+//@ pred IsObj(x interface{}) := dyntype(x, *unstructured.Unstructured) && x.(*unstructured.Unstructured) != nil
+
+// C08 / C02: with rid the resource id of the object and `fired` = the event was handed over
+// (callback enabled) or buffered (Synchronization in progress): Added/Modified update the cache
+// entry of rid to the new projection in any case (suppressed changes still update what snapshots
+// show) and fire exactly one Event iff the type is listed and the object was not cached with the
+// same checksum; Deleted removes the entry and fires iff listed; other cache entries are untouched;
+// a stopped informer or a failing filter changes nothing.
+//@ func (*resourceInformer).handleWatchEvent
+//@   prop C08
+//@   requires ei.Monitor != nil && ei.cachedObjects != nil && ei.cachedObjectsInfo != nil && ei.cachedObjectsIncrement != nil
+//@   requires [assumed:informer-delivers-unstructured-objects] IsObj(object) || (dyntype(object, cache.DeletedFinalStateUnknown) && IsObj(object.(cache.DeletedFinalStateUnknown).Obj))
+//@   requires forall(k, string, has(ei.cachedObjects, k) ==> ei.cachedObjects[k] != nil)
+//@   requires [event-kind] eventType == kemtypes.WatchEventAdded || eventType == kemtypes.WatchEventModified || eventType == kemtypes.WatchEventDeleted
+//@   modifies mapof(ei.cachedObjects), fields(ei.cachedObjectsInfo), fields(ei.cachedObjectsIncrement), ei.eventBuf, elems(ei.eventBuf), nPut, lastPut
+//@   let o := ite(dyntype(object, cache.DeletedFinalStateUnknown), object.(cache.DeletedFinalStateUnknown).Obj, object).(*unstructured.Unstructured)
+//@   let rid := resourceId(ite(dyntype(object, cache.DeletedFinalStateUnknown), object.(cache.DeletedFinalStateUnknown).Obj, object).(*unstructured.Unstructured))
+//@   let wasCached := old(has(ei.cachedObjects, rid))
+//@   let oldSum := old(ei.cachedObjects[rid].Metadata.Checksum)
+//@   let nFired := (nPut - old(nPut)) + (len(ei.eventBuf) - old(len(ei.eventBuf)))
+//@   ensures [at-most-one]     nFired == 0 || nFired == 1
+//@   ensures [stopped]         old(ei.stopped) ==> nFired == 0 && has(ei.cachedObjects, rid) == wasCached
+//@   ensures [others-kept]     forall(k, string, k != rid ==> has(ei.cachedObjects, k) == old(has(ei.cachedObjects, k)) && ei.cachedObjects[k] == old(ei.cachedObjects[k]))
+//@   ensures [not-listed]      !listed(ei.Monitor.EventTypes, eventType) ==> nFired == 0
+//@   ensures [unchanged-skipped] (eventType == kemtypes.WatchEventAdded || eventType == kemtypes.WatchEventModified) && wasCached && has(ei.cachedObjects, rid)
+//@        && ei.cachedObjects[rid].Metadata.Checksum == oldSum && ei.cachedObjects[rid] != old(ei.cachedObjects[rid]) ==> nFired == 0
+//@   ensures [changed-fires]   (eventType == kemtypes.WatchEventAdded || eventType == kemtypes.WatchEventModified) && listed(ei.Monitor.EventTypes, eventType) && has(ei.cachedObjects, rid)
+//@        && ei.cachedObjects[rid] != old(ei.cachedObjects[rid]) && (!wasCached || ei.cachedObjects[rid].Metadata.Checksum != oldSum) ==> nFired == 1
+//@   ensures [deleted-fires]   eventType == kemtypes.WatchEventDeleted && wasCached && !has(ei.cachedObjects, rid) && listed(ei.Monitor.EventTypes, eventType) ==> nFired == 1
+//@   ensures [deleted-uncached] eventType == kemtypes.WatchEventDeleted && nFired == 1 ==> !has(ei.cachedObjects, rid)
+//@   ensures [cache-follows]   nFired == 1 && eventType != kemtypes.WatchEventDeleted ==> has(ei.cachedObjects, rid) && ei.cachedObjects[rid].Metadata.ResourceId == rid
+//@   ensures [delivered-or-buffered] nPut > old(nPut) ==> old(ei.eventCbEnabled) && lastPut.Type == kemtypes.TypeEvent && len(lastPut.WatchEvents) == 1 && lastPut.WatchEvents[0] == eventType
+//@        && len(lastPut.Objects) == 1 && lastPut.MonitorId == ei.Monitor.Metadata.MonitorId
+
+// the informer callbacks forward with the matching event kind
+//@ func (*resourceInformer).OnAdd
+//@   prop C08
+//@   requires ei.Monitor != nil && ei.cachedObjects != nil && ei.cachedObjectsInfo != nil && ei.cachedObjectsIncrement != nil
+//@   requires [assumed:informer-delivers-unstructured-objects] IsObj(obj) || (dyntype(obj, cache.DeletedFinalStateUnknown) && IsObj(obj.(cache.DeletedFinalStateUnknown).Obj))
+//@   requires forall(k, string, has(ei.cachedObjects, k) ==> ei.cachedObjects[k] != nil)
+//@   modifies mapof(ei.cachedObjects), fields(ei.cachedObjectsInfo), fields(ei.cachedObjectsIncrement), ei.eventBuf, elems(ei.eventBuf), nPut, lastPut
+//@   ensures [kind] nPut > old(nPut) ==> lastPut.WatchEvents[0] == kemtypes.WatchEventAdded
+//@ func (*resourceInformer).OnUpdate
+//@   prop C08
+//@   requires ei.Monitor != nil && ei.cachedObjects != nil && ei.cachedObjectsInfo != nil && ei.cachedObjectsIncrement != nil
+//@   requires [assumed:informer-delivers-unstructured-objects] IsObj(newObj) || (dyntype(newObj, cache.DeletedFinalStateUnknown) && IsObj(newObj.(cache.DeletedFinalStateUnknown).Obj))
+//@   requires forall(k, string, has(ei.cachedObjects, k) ==> ei.cachedObjects[k] != nil)
+//@   modifies mapof(ei.cachedObjects), fields(ei.cachedObjectsInfo), fields(ei.cachedObjectsIncrement), ei.eventBuf, elems(ei.eventBuf), nPut, lastPut
+//@   ensures [kind] nPut > old(nPut) ==> lastPut.WatchEvents[0] == kemtypes.WatchEventModified
+//@ func (*resourceInformer).OnDelete
+//@   prop C08
+//@   requires ei.Monitor != nil && ei.cachedObjects != nil && ei.cachedObjectsInfo != nil && ei.cachedObjectsIncrement != nil
+//@   requires [assumed:informer-delivers-unstructured-objects] IsObj(obj) || (dyntype(obj, cache.DeletedFinalStateUnknown) && IsObj(obj.(cache.DeletedFinalStateUnknown).Obj))
+//@   requires forall(k, string, has(ei.cachedObjects, k) ==> ei.cachedObjects[k] != nil)
+//@   modifies mapof(ei.cachedObjects), fields(ei.cachedObjectsInfo), fields(ei.cachedObjectsIncrement), ei.eventBuf, elems(ei.eventBuf), nPut, lastPut
+//@   ensures [kind] nPut > old(nPut) ==> lastPut.WatchEvents[0] == kemtypes.WatchEventDeleted
+
+// C08: executeHookOnEvent absent = all three watch events; otherwise exactly the given ones.
+//@ func (*MonitorConfig).WithEventTypes
+//@   prop C08, C10
+//@   modifies c.EventTypes
+//@   ensures [default] types == nil ==> len(c.EventTypes) == 3 && c.EventTypes[0] == kemtypes.WatchEventAdded && c.EventTypes[1] == kemtypes.WatchEventModified && c.EventTypes[2] == kemtypes.WatchEventDeleted
+//@   ensures [given]   types != nil ==> sameseq(c.EventTypes, types)
+//@   ensures [self]    result == c
